@@ -6,7 +6,11 @@ laid out in two non-square shapes and in one permuted order.  Every operator of 
 property is called on every ordered sub-list of the data layers (and on the default "all variables"
 selection for three variable orders of the dataset), every ref_var choice, C / Fortran / mixed memory layout,
 int and float layers, and compared cell by cell with the plain-Python definitions of
-xrmc.oracles.local_ops."""
+xrmc.oracles.local_ops.
+Signed alphabets ({-2,-1,0,NaN}, {-3,0,2,NaN}, {-2,-1,0}): cells whose values are all negative / all zero / of mixed sign.
+Variable NAMES are a dimension of their own (spaces *_names_*): name sets in which the data-layer names are proper
+substrings of the reference name (ref 'b12' / 'b21' with layers 'b1', 'b2', 'b'; ref 'rank' with layers 'a', 'ran') or proper
+superstrings of it (ref 'r' with layers 'r1', 'r2'); which layers an operator reads is decided by name EQUALITY only."""
 import itertools
 
 import numpy as np
@@ -21,7 +25,9 @@ RULE = ("per space (D data layers, alphabet, dtype, reference layers): rank = mi
         "of the cell list in {shape A, shape B = A transposed, shape A permuted}, selection in {data_vars=None for "
         "each dataset variable order} + {every ordered sub-list of >= 1 data layer names}, operator in {cell_stats x "
         "7 func spellings, combine, lowest/highest_position, (lesser|equal|greater)_frequency and rank x each ref_var}, "
-        "memory layout in {C, F, alternating F/C}); the raster's cells are all alphabet^D tuples x ref values 1..D; "
+        "memory layout in {C, F, alternating F/C}); spaces *_names_<scheme> use the variable names of that scheme "
+        "(data-layer names that are substrings / superstrings of the reference names) instead of the default ones; "
+        "the raster's cells are all alphabet^D tuples x ref values 1..D; "
         "one case = one call compared on every cell; non-trivial = the expected raster has >= 2 distinct non-NaN "
         "values; distinct = distinct (operator, output raster) digests")
 ASSUMPTIONS = [
@@ -33,31 +39,55 @@ ASSUMPTIONS = [
     "only the values, the shape and combine's attrs['key'] of the result are asserted (not dtype, dims, coords, name)",
     "datasets have at most 6 variables (data + reference layers), numpy backed; data_vars sub-lists are drawn from "
     "the data layers only, the default selection (data_vars=None) also includes the other variables of the dataset",
-    "value alphabets are small integers so every statistic is exact; mean/std compared with rtol=atol=1e-9",
+    "value alphabets are small integers (of either sign) so every statistic is exact; mean/std compared with rtol=atol=1e-9",
+    "variable names are non-empty strings, pairwise different; a name may contain, or be contained in, another variable's name",
 ]
 NAN = float("nan")
 FLOAT4 = (0, 1, 2, NAN)
 FLOAT3 = (0, 1, NAN)
 INT3 = (0, 1, 2)
+NEG4 = (-2, -1, 0, NAN)       # no positive value: every cell is all-negative, all-zero or a mix of the two
+MIX4 = (-3, 0, 2, NAN)        # mixed signs
+NEGI3 = (-2, -1, 0)
+ALPHA_TAG = {NEG4: "neg210n", MIX4: "m302n", NEGI3: "neg210"}     # suffix of the space name / alphabet id in keys
+# name schemes: tag -> (data-layer names, reference-layer names)
+NAME_SCHEMES = {
+    "sub3": (("b1", "b2", "b"), ("b12", "b21")),       # every data name is a proper substring of ref 'b12'; 'b2', 'b' of 'b21'
+    "sub2": (("a", "ran"), ("rank",)),                 # both data names are proper substrings of the ref name
+    "sup2": (("r1", "r2"), ("r",)),                    # the ref name is a proper substring of both data names
+}
 DATA_NAMES = ("q", "a", "m", "c", "z", "e")        # insertion order differs from alphabetical order
 LAYOUTS = ("C", "F", "mixed")
 ARRANGEMENTS = ("A", "B", "Aperm")
 STAT_SPELLINGS = (None, "max", "mean", "median", "min", "std", "sum")   # None = func omitted (documented default: sum)
 
-# (D data layers, alphabet, dtype, reference layers, repetitions of the cell list)
+# (D data layers, alphabet, dtype, reference layers, repetitions of the cell list[, name scheme])
 CONFIGS = {
     "quick": [(1, FLOAT4, "f8", ("r",), 3), (1, INT3, "i8", ("r",), 4),
               (2, FLOAT4, "f8", ("r", "s"), 1), (2, INT3, "i8", ("r", "s"), 1),
               (3, FLOAT4, "f8", ("r", "s"), 1), (3, INT3, "i8", ("r", "s"), 1),
-              (4, FLOAT4, "f8", ("r", "s"), 1), (4, INT3, "i8", ("r", "s"), 1)],
+              (4, FLOAT4, "f8", ("r", "s"), 1), (4, INT3, "i8", ("r", "s"), 1),
+              # signed alphabets
+              (1, NEG4, "f8", ("r",), 3), (2, NEG4, "f8", ("r", "s"), 1), (3, NEG4, "f8", ("r", "s"), 1),
+              (2, MIX4, "f8", ("r", "s"), 1), (3, MIX4, "f8", ("r", "s"), 1),
+              (2, NEGI3, "i8", ("r", "s"), 1), (3, NEGI3, "i8", ("r", "s"), 1), (4, NEGI3, "i8", ("r", "s"), 1),
+              # variable names containing / contained in one another
+              (3, FLOAT4, "f8", None, 1, "sub3"), (3, INT3, "i8", None, 1, "sub3"),
+              (2, FLOAT4, "f8", None, 1, "sub2"), (2, INT3, "i8", None, 1, "sub2"),
+              (2, FLOAT4, "f8", None, 1, "sup2"), (2, INT3, "i8", None, 1, "sup2")],
 }
 CONFIGS["thorough"] = CONFIGS["quick"] + [
     (2, FLOAT4, "f4", ("r", "s"), 1), (2, INT3, "i4", ("r", "s"), 1),
     (3, FLOAT4, "f4", ("r", "s"), 1), (3, INT3, "i4", ("r", "s"), 1),
     (5, FLOAT3, "f8", ("r",), 1), (5, INT3, "i8", ("r",), 1),
-    (6, FLOAT3, "f8", (), 1), (6, INT3, "i8", (), 1)]
-BOUNDS = {t: {"datasets": [dict(data_layers=D, alphabet=[str(x) for x in al], dtype=dt, ref_layers=list(refs),
-                                cell_list_repeats=rep) for D, al, dt, refs, rep in cfg],
+    (6, FLOAT3, "f8", (), 1), (6, INT3, "i8", (), 1),
+    (4, NEG4, "f8", ("r", "s"), 1), (4, MIX4, "f8", ("r", "s"), 1), (3, NEG4, "f4", ("r", "s"), 1),
+    (3, MIX4, "f8", None, 1, "sub3"), (3, NEGI3, "i8", None, 1, "sub3")]
+CONFIGS = {t: [c if len(c) == 6 else c + (None,) for c in cfg] for t, cfg in CONFIGS.items()}
+BOUNDS = {t: {"datasets": [dict(data_layers=D, alphabet=[str(x) for x in al], dtype=dt,
+                                data_layer_names=list(NAME_SCHEMES[nm][0] if nm else DATA_NAMES[:D]),
+                                ref_layers=list(NAME_SCHEMES[nm][1] if nm else refs),
+                                cell_list_repeats=rep) for D, al, dt, refs, rep, nm in cfg],
               "layouts": list(LAYOUTS), "arrangements": list(ARRANGEMENTS),
               "selections": "data_vars=None x dataset variable orders + all ordered sub-lists (>= 1) of the data layers"}
           for t, cfg in CONFIGS.items()}
@@ -79,13 +109,21 @@ def _perm(n):
 
 
 class LocalSpace(Space):
-    def __init__(self, D, alphabet, dtype, refs, rep):
-        self.D, self.alphabet, self.dtype, self.refs, self.rep = D, alphabet, dtype, tuple(refs), rep
+    def __init__(self, D, alphabet, dtype, refs, rep, names=None):
         self.data = DATA_NAMES[:D]
+        if names is not None:
+            self.data, refs = NAME_SCHEMES[names]
+            assert len(self.data) == D and len(set(self.data) | set(refs)) == D + len(refs)
+        self.D, self.alphabet, self.dtype, self.refs, self.rep = D, alphabet, dtype, tuple(refs), rep
         self.name = "local_D%d_%s_%dletters_refs%d" % (D, dtype, len(alphabet), len(refs))
+        self.atag = ALPHA_TAG.get(alphabet, str(len(alphabet)))       # alphabet id used in violation keys
+        if alphabet in ALPHA_TAG:
+            self.name += "_" + ALPHA_TAG[alphabet]
+        if names is not None:
+            self.name += "_names_" + names
         # the cells: every tuple x every ref value
         tuples = list(itertools.product(alphabet, repeat=D))
-        if refs:
+        if self.refs:
             cells = [t + (r, D + 1 - r) for t in tuples for r in range(1, D + 1)]
         else:
             cells = [t for t in tuples]
@@ -169,10 +207,10 @@ class LocalSpace(Space):
                     op=op, func=func, ref_var=ref, layers=layers)
 
     def label(self, c):
-        return "op=%s%s|ref_var=%s|data_vars=%s|dataset=%s|layout=%s|dtype=%s|alphabet=%d|cells=%s:%s" % (
+        return "op=%s%s|ref_var=%s|data_vars=%s|dataset=%s|layout=%s|dtype=%s|alphabet=%s|cells=%s:%s" % (
             c["op"], "" if c["op"] != "cell_stats" else "(%s)" % (c["func"] or "default"), c["ref_var"],
             "None" if c["data_vars"] is None else ",".join(c["data_vars"]), ",".join(self.orders[c["order_i"]]),
-            LAYOUTS[c["lay_i"]], self.dtype, len(self.alphabet), ARRANGEMENTS[c["arr_i"]], "x".join(map(str, self.shape_of(c["arr_i"]))))
+            LAYOUTS[c["lay_i"]], self.dtype, self.atag, ARRANGEMENTS[c["arr_i"]], "x".join(map(str, self.shape_of(c["arr_i"]))))
 
     def shape_of(self, arr_i):
         h, w = self.shapeA
